@@ -368,8 +368,11 @@ def _eval_soft(case):
     if case['dt'] == 'f64':
         spec, model = core.floats(drv['spec']), core.floats(drv['model'])
     else:
-        spec, model = np.array(core.ints(drv['spec'])), np.array(core.ints(drv['model']))
+        # python integers (object arrays): values beyond 2^63 must not pass through float64 on the way to the comparison
+        spec, model = np.array(core.ints(drv['spec']), dtype=object), np.array(core.ints(drv['model']), dtype=object)
     g = np.asarray(got).ravel()
+    if case['dt'] != 'f64':
+        g = np.array([int(v) for v in g.tolist()], dtype=object)
     if case.get('idt') and np.asarray(got).dtype != np.dtype(case['idt']):
         f.append(dict(kind='property', key='soft_threshold:dtype', detail=dict(got=str(np.asarray(got).dtype), want=case['idt'])))
     if case.get('fdt'):
@@ -541,8 +544,11 @@ def _rand_soft(rng):
         lo_, hi_ = gen.dt_range(idt)
         t = rng.choice([0, 1, 2, 16, min(hi_, 100)])
         top = min(hi_, 10 ** 6)
+        # 64-bit dtypes: magnitudes at and beyond 2^53 / 2^63 (a rewrite that goes through double merges 2^53+1 and 2^53)
+        big = [v for v in (2 ** 53 + 1, 2 ** 53 + 2, -(2 ** 53 + 1), 2 ** 62 + 1, 2 ** 63 + 1, hi_ - 1, lo_ + 1)
+               if lo_ <= v <= hi_] if idt in ('int64', 'uint64') else []
         vals = [rng.choice([0, t, min(top, t + 1), rng.randint(max(lo_, -40), min(hi_, 40)), rng.randint(max(lo_, -top), top), hi_,
-                            lo_, max(lo_ + 1, -t), max(lo_ + 1, -t - 1)]) for _ in range(n)]
+                            lo_, max(lo_ + 1, -t), max(lo_ + 1, -t - 1)] + big) for _ in range(n)]
         return dict(kind='soft', dt='i64', idt=idt, shape=shape, data=vals, t=t, gen='int-' + idt)
     t = rng.choice([0, 1, 2, 16, 1000])
     vals = [rng.choice([0, t, -t, t + 1, -t - 1, rng.randint(-40, 40), rng.randint(-10**6, 10**6)]) for _ in range(n)]
